@@ -464,7 +464,7 @@ Alphabet ==
     [] AlphaName = "html"  -> NoTrail(Cat({<<>>}, {<<>>, GtS, Bul, S2, S4}, {<<>>, Wa, Dash3, <<"<", "div", ">">>, <<"<", "/", "div", ">">>, <<"<", "!", "-", "-">>, <<"-", "-", ">">>,
                                              <<"<", "em", ">">>, <<"<", "pre", ">">>, <<"<", "/", "pre", ">">>, <<"<", "?">>, <<"?", ">">>, <<"<", "!", "-", "-", " ", "a", " ", "-", "-", ">">>,
                                              <<"<", "div">>, <<"<", "/", "em", ">">>, <<"<", "div", ">", "a">>, <<"<", "em", ">", "a">>,
-                                             <<"<", "!", "X">>, <<"<", "!", "X", " ", "a", ">">>, <<"<", "!", "[CDATA[">>, <<"]", "]", ">">>, <<"a", ">">>}))
+                                             <<"<", "pre", ">", "a", "<", "/", "pre", ">">>, <<"<", "!", "X">>, <<"<", "!", "X", " ", "a", ">">>, <<"<", "!", "[CDATA[">>, <<"]", "]", ">">>, <<"a", ">">>}))
     [] AlphaName = "tabs"  -> NoTrail(Cat({<<>>, Gt, GtS, Bul, BulBare, Ord, S1, S2}, {<<>>, Tab, Tab \o Tab, S1 \o Tab, S2 \o Tab},
                                           {<<>>, Wa, Bul \o Wa, BulBare \o Tab \o Wa, Dash3, Fence, HashA, <<"#">> \o Tab \o Wa, Gt \o Wa, Ord \o Wa, <<"1", ".">> \o Tab \o Wa, Tab \o Wa}))
     [] AlphaName = "tabs2" -> NoTrail(Cat({<<>>, GtS, Bul, Bul \o Bul, S2}, {<<>>, Tab, S1 \o Tab, S3 \o Tab, Tab \o S1}, {<<>>, Wa, Bul \o Wa, BulBare \o Tab \o Wa, Fence, Tab \o Wa, Gt \o Tab \o Wa}))
